@@ -94,7 +94,7 @@ package generic
 //@   noverify
 //@   requires RI(d.Channel.Q) && d.Channel.PromptSearchDepth >= 0
 //@   ensures RI(d.Channel.Q)
-//@   modifies wire, rd, quiet, alloc(), all(util.Queue.queue), all(util.Queue.depth)
+//@   modifies wire, rd, quiet, alloc(), all(util.Queue.queue), all(util.Queue.depth), chans()
 //@   ensures result.1 != nil ==> result.0 == ""
 //@ func (*Driver).SendCommandsFromFile
 //@   noverify
